@@ -11,6 +11,18 @@ import (
 
 func writeEvidence(chk *Check, tier string, seed int, reports []harnessReport, samples []any, funcs map[string]int64,
 	srcs []string, nviol, nknown int, notes []string, wall time.Duration) {
+	if len(chk.ID) != 3 || chk.ID[0] != 'C' {
+		return // engine self-checks are not properties
+	}
+	if chk.Assumptions == nil {
+		chk.Assumptions = []string{}
+	}
+	if chk.Outside == nil {
+		chk.Outside = []string{}
+	}
+	if notes == nil {
+		notes = []string{}
+	}
 	var paths, sym, queries, aq, unsat, sat, unk, trunc, unsup, unexpl, instr, completed, conc int64
 	var solverS float64
 	bounds := map[string]any{}
